@@ -14,19 +14,28 @@ pub struct C02;
 
 const KEYS: &[&str] = &["a", "b", "c", "d", "e", "A", "a1", "k_2", "\u{e5}"];
 const ODD_KEYS: &[&str] = &["a b", "", "a.b", "0"];
-const NUMS: &[&str] = &["0", "1", "-1", "42", "1.0", "1e2", "-0", "1.5", "-2.5e-3", "9223372036854775807", "9223372036854775808", "-9223372036854775808", "-9223372036854775809", "18446744073709551615", "18446744073709551616", "1e400", "-1e400", "1E5", "0.1", "123456789012345678901234567890", "7", "3"];
+const NUMS: &[&str] = &["0", "1", "-1", "42", "1.0", "1e2", "-0", "1.5", "-2.5e-3", "9223372036854775807", "9223372036854775808", "-9223372036854775808", "-9223372036854775809", "18446744073709551615", "18446744073709551616", "1e400", "-1e400", "1E5", "0.1", "123456789012345678901234567890", "7", "3", "1.8e306", "9007199254740993.0", "0.30000000000000004", "2.2250738585072011e-308", "1.7976931348623157e308", "4.35", "123456789.12345678901234567890", "5e-324", "2.4703282292062327e-324", "8.5e-325"];
+
+/// a number token: from the pool, or a REAL with 16-20 significant digits and any exponent (decoders that round approximately differ from the nearest double there)
+fn gen_num(rng: &mut Rng) -> String {
+    if rng.chance(3, 4) { return rng.pick(NUMS).to_string(); }
+    let nd = 16 + rng.below(5);
+    let digits: String = (0..nd).map(|i| (b'0' + if i == 0 { 1 + rng.below(9) } else { rng.below(10) } as u8) as char).collect();
+    let exp = rng.range(-330, 300);
+    format!("{}{}.{}e{}", if rng.chance(1, 4) { "-" } else { "" }, &digits[..1], &digits[1..], exp)
+}
 const STRS: &[&str] = &["", "x", "hello world", "42", "-7", "1.5", "true", "2021-03-04 05:06:07", "1:02:03", "quote\"inside", "back\\slash", "tab\there", "line\nbreak", "\u{e5}\u{1F600}", "NaN", " 5 ", "null"];
 
 pub fn gen_value(rng: &mut Rng, depth: usize) -> JV {
     let leafy = depth == 0 || rng.chance(1, 2);
     if leafy {
-        return match rng.below(8) { 0 => JV::Null, 1 => JV::Bool(rng.chance(1, 2)), 2 | 3 | 4 => JV::Num(rng.pick(NUMS).to_string()), _ => JV::Str(rng.pick(STRS).to_string()) };
+        return match rng.below(8) { 0 => JV::Null, 1 => JV::Bool(rng.chance(1, 2)), 2 | 3 | 4 => JV::Num(gen_num(rng)), _ => JV::Str(rng.pick(STRS).to_string()) };
     }
     if rng.chance(1, 2) {
         let n = rng.below(5);
         let homogeneous = rng.chance(2, 3);
         let kind = rng.below(3);
-        JV::Arr((0..n).map(|_| if homogeneous { match kind { 0 => JV::Num(rng.pick(NUMS).to_string()), 1 => JV::Str(rng.pick(STRS).to_string()), _ => gen_value(rng, depth - 1) } } else { gen_value(rng, depth - 1) }).collect())
+        JV::Arr((0..n).map(|_| if homogeneous { match kind { 0 => JV::Num(gen_num(rng)), 1 => JV::Str(rng.pick(STRS).to_string()), _ => gen_value(rng, depth - 1) } } else { gen_value(rng, depth - 1) }).collect())
     } else { gen_object(rng, depth) }
 }
 
